@@ -318,3 +318,155 @@ def gen_features(known_unstable, known_shadowed):
         f.write("end DynasmVerif.Feat.Gen\n")
     return {"ext_names": dict(arms), "ext_bits": ext_bits, "isa_bits": isa_bits, "x64_names": {n: xfeat_bits[fl] for (n, fl) in xnames},
             "rv_mnemonics": rv_names, "x64_mnemonics": x_names}
+
+
+# ---------------------------------------------------------------------------------------------
+# riscv load-immediate / pc-relative sequences (C15): straight-line word expressions + theorem statements from today's table
+
+RV_OFFSET_EQUIV = {   # Command::Offset with an immediate operand: the equivalent bit ranges listed in riscv/compiler.rs
+    "HI20": [("RBitRange", 12, 20, 12)], "LO12": [("BitRange", 20, 12, 0)], "LO12S": [("BitRange", 7, 5, 0), ("BitRange", 25, 7, 5)],
+    "SPLIT32": [("RBitRange", 12, 20, 12), ("BitRange", 52, 12, 0)], "SPLIT32S": [("RBitRange", 12, 20, 12), ("BitRange", 39, 5, 0), ("BitRange", 57, 7, 5)],
+}
+
+
+def rv_offset_equiv_from_source():
+    """re-read the equivalent ranges from the source text so that an edit there is seen"""
+    src = open(os.path.join(common.REPO, "plugin/src/arch/riscv/compiler.rs")).read()
+    out = {}
+    for m in re.finditer(r"Relocation::(\w+) => \{\s*bits = (\d+);\s*scaling = (\d+);\s*commands = &\[(.*?)\];", src, re.S):
+        name, bits, scaling, body = m.group(1), int(m.group(2)), int(m.group(3)), m.group(4)
+        cmds = []
+        for c in re.finditer(r"Command::(R?BitRange)\(([^)]*)\)", body):
+            a = [eval(x, {}) for x in c.group(2).split(",")]
+            cmds.append((c.group(1),) + tuple(a))
+        out[name] = (bits, scaling, cmds)
+    if "SPLIT32" not in out:
+        raise TranslationError("could not read the Command::Offset equivalent ranges from riscv/compiler.rs")
+    return out
+
+
+def rv_pair_range_from_source():
+    """the accepted range of the auipc-pair offsets, from the source text: immediates (plugin) and labels (runtime write_value)"""
+    src = open(os.path.join(common.REPO, "plugin/src/arch/riscv/compiler.rs")).read()
+    m = re.search(r"if bits == 32 \{\s*range = (0x[0-9A-Fa-f_]+);", src)
+    imm_lo, imm_hi = -(1 << 31), -(1 << 31) + (int(m.group(1).replace("_", ""), 16) if m else 0xFFFFFFFF)
+    rt = open(os.path.join(common.REPO, "runtime/src/riscv.rs")).read()
+    m = re.search(r"Self::SPLIT32S => \{\s*if value < (-?0x[0-9A-Fa-f_]+) \|\| value > (-?0x[0-9A-Fa-f_]+)", rt)
+    if not m:
+        raise TranslationError("could not read the SPLIT32 range test from runtime/src/riscv.rs write_value")
+    lab_lo, lab_hi = (int(g.replace("_", ""), 16) for g in m.groups())
+    return dict(imm=(imm_lo, imm_hi), label=(lab_lo, lab_hi))
+
+
+def gen_rvli(rows=None):
+    """Generated/RvLi.lean: for `li*` and every auipc-pair pseudo instruction the emitted words as bit-vector expressions of the operands,
+    and the statement that executing them (Model/RvExec) yields the requested value / pc + offset."""
+    rows = rows if rows is not None else dump("riscv")
+    equiv = rv_offset_equiv_from_source()
+    ranges = rv_pair_range_from_source()
+    pair_lo, pair_hi = min(ranges["imm"][0], ranges["label"][0]), max(ranges["imm"][1], ranges["label"][1])
+    items = []
+    for r in rows:
+        op = rustdebug.parse(r["op"])
+        cmds = op["commands"]
+        names = [c[0] if isinstance(c, tuple) else c for c in cmds]
+        is_li = r["m"] == "li" or r["m"].startswith("li.")
+        is_pair = any(isinstance(c, tuple) and c[0] == "Offset" and c[1] in ("SPLIT32", "SPLIT32S") for c in cmds)
+        if not (is_li or is_pair):
+            continue
+        t = op["template"]
+        words = [t[1]] if t[0] in ("Single", "Compressed") else [t[1], t[2]] if t[0] == "Double" else list(t[1])
+        # flat args
+        flat = []
+        for m in op["matchers"]:
+            mn = m[0] if isinstance(m, tuple) else m
+            flat += {"X": ["reg"], "F": ["reg"], "Ref": ["reg"], "RefOffset": ["reg", "imm"], "RefSp": ["imm"], "RefLabel": ["reg", "imm"],
+                     "Imm": ["imm"], "Offset": ["imm"], "Ident": ["imm"], "Xlist": ["list"], "Reg": [], "Lit": []}[mn]
+        cur = 0
+        fields = [[] for _ in words]      # per word: lean expressions (BitVec 32)
+        regs = set()
+        check = None
+        rd_var = None
+        for c in cmds:
+            n = c[0] if isinstance(c, tuple) else c
+            a = c[1:] if isinstance(c, tuple) else ()
+            if n == "Repeat":
+                cur -= 1
+                continue
+            if n == "Next":
+                cur += 1
+                continue
+            if n in ("R", "Rno0", "Rno02", "Reven"):
+                o = a[0]
+                regs.add(cur)
+                fields[o // 32].append(f"((r{cur}.zeroExtend 32) <<< {o % 32})")
+                if o == 7:
+                    rd_var = f"r{cur}"
+                cur += 1
+            elif n in ("SImm", "UImm", "BigImm", "SImmNo0", "UImmNo0"):
+                check = (n, a[0])
+            elif n in ("BitRange", "RBitRange"):
+                o, l, s = a
+                src = f"(imm + {1 << (s - 1)}#64)" if n == "RBitRange" else "imm"
+                fields[o // 32].append(f"((({src}.sshiftRight {s}) &&& {(1 << l) - 1}#64).truncate 32 <<< {o % 32})")
+            elif n == "Offset":
+                bits, scaling, eq = equiv[a[0]]
+                check = ("Pair", bits)
+                for (kind, o, l, s) in eq:
+                    src = f"(imm + {1 << (s - 1)}#64)" if kind == "RBitRange" else "imm"
+                    fields[o // 32].append(f"((({src}.sshiftRight {s}) &&& {(1 << l) - 1}#64).truncate 32 <<< {o % 32})")
+                cur += 1
+            else:
+                raise TranslationError(f"{r['m']}#{r['i']}: command {n} not handled by the C15 translator")
+        isa = flags_value(op["isa_flags"], rv_flag_bits()[1], "ISA")
+        exts = [e[1] for e in op["ext_flags"]] if isinstance(op["ext_flags"], list) else []
+        chunks = [(c[0], c[1], c[2], c[3]) for c in cmds if isinstance(c, tuple) and c[0] in ("BitRange", "RBitRange")]
+        if check and check[0] == "Pair":
+            chunks = [tuple(e) for e in equiv[[c[1] for c in cmds if isinstance(c, tuple) and c[0] == "Offset"][0]][2]]
+        items.append(dict(m=r["m"], i=r["i"], words=words, fields=fields, regs=sorted(regs), check=check, rd_var=rd_var, isa=isa, is_li=is_li,
+                          matchers=[m[0] if isinstance(m, tuple) else m for m in op["matchers"]], exts=exts, chunks=chunks,
+                          reloc=next((c[1] for c in cmds if isinstance(c, tuple) and c[0] == "Offset"), None)))
+    os.makedirs(common.GEN, exist_ok=True)
+    thms = []
+    with open(os.path.join(common.GEN, "RvLi.lean"), "w") as f:
+        f.write("import Std.Tactic.BVDecide\nimport DynasmVerif.Model.RvExec\n/-! generated from today's riscv table: emitted words of `li*` and the auipc-pair pseudo instructions, and what executing them yields -/\n")
+        f.write("set_option maxRecDepth 100000\nnamespace DynasmVerif.RvLi\nopen DynasmVerif.RvExec\n")
+        f.write(f"/-- the accepted range of auipc-pair offsets read from the source: immediates {ranges['imm']}, labels {ranges['label']} (union) -/\n"
+                f"def pairLo : BitVec 64 := BitVec.ofInt 64 ({pair_lo})\ndef pairHi : BitVec 64 := BitVec.ofInt 64 ({pair_hi})\n")
+        for it in items:
+            name = re.sub(r"[^A-Za-z0-9]", "_", it["m"]) + f"_{it['i']}"
+            params = " ".join(f"(r{k} : BitVec 5)" for k in it["regs"])
+            f.write(f"\n/-- `{it['m']}` form {it['i']}: template {it['words']} -/\ndef {name}_words {params} (imm : BitVec 64) : List (BitVec 32) := [\n")
+            f.write(",\n".join("  " + " ||| ".join([f"{w}#32"] + fl) for w, fl in zip(it["words"], it["fields"])) + "]\n")
+            rd = it["rd_var"] or f"{(it['words'][0] >> 7) & 31}#5"
+            args = " ".join(f"r{k}" for k in it["regs"])
+            last_op = it["words"][-1] & 0x7F
+            result = "out" if last_op in (0x67, 0x03, 0x07, 0x23, 0x27) else "acc"
+            it["result"] = result
+            kind, bits = it["check"]
+            if kind == "Pair":
+                hyp = "(hr : pairLo.sle imm = true ∧ imm.sle pairHi = true)"
+            elif bits >= 64:
+                hyp = ""
+            else:
+                hyp = f"(hr : imm.slt {1 << (bits - 1)}#64 = true ∧ (BitVec.ofInt 64 (-{1 << (bits - 1)})).sle imm = true)"
+            hrd = f"(h0 : {rd} ≠ 0#5)" if it["rd_var"] else ""
+            # when the last instruction is a jalr/load/store the tracked register must be its base: true by construction (Repeat fields)
+            for (xl, flag, tag) in ((True, 2, "rv64"), (False, 1, "rv32")):
+                if not it["isa"] & flag:
+                    continue
+                if it["is_li"]:
+                    expect = "imm"
+                else:
+                    expect = "pc + imm" if xl else "sext32 (pc + imm)"
+                tn = f"{name}_{tag}"
+                f.write(f"theorem {tn} {params} (imm other acc0 out0 pc : BitVec 64) {hrd} {hyp} :\n"
+                        f"    (run {'true' if xl else 'false'} {rd} other ⟨acc0, out0, pc⟩ ({name}_words {args} imm)).{result} = {expect} := by\n"
+                        f"  simp only [{name}_words, run, step, sext32, fitsSigned, pairLo, pairHi] at *\n  bv_decide (config := {{ timeout := 600 }})\n")
+                thms.append(tn)
+            f.write(f"theorem {name}_length {params} (imm : BitVec 64) : ({name}_words {args} imm).length = {len(it['words'])} := rfl\n")
+            thms.append(f"{name}_length")
+        f.write("end DynasmVerif.RvLi\n")
+    for it in items:
+        del it["fields"]
+    return {"entries": [(it["m"], it["i"]) for it in items], "theorems": thms, "items": items, "ranges": ranges, "pair_range": (pair_lo, pair_hi)}
